@@ -4,9 +4,14 @@
   * two surjective tables on the same domain with the same kernel differ by a bijective
     renumbering of their codomains, which therefore have equally many elements
     (`tables_same_kernel`);
-  * a relation on `Res` lifting a relation on values (`ResRel`).
+  * a relation on `Res` lifting a relation on values (`ResRel`) and its compatibility with
+    `bind` / `unwrap`;
+  * gluing is a congruence for `≅`: gluings of isomorphic well-formed operands are isomorphic
+    (`isGluing_congr`, via `C04.iso_of_quotMaps_over_iso` and the block sum of the two node
+    bijections); so is juxtaposition (`juxt_congr`).
 -/
 import OHVerif.Lemmas.Quot
+import OHVerif.Props.C04
 import Mathlib.Data.List.Nodup
 import Mathlib.Data.List.Perm.Subperm
 
@@ -104,5 +109,269 @@ def ResRel {α : Type} (R : α → α → Prop) : Res α → Res α → Prop
   | .none, .none => True
   | .panic s, .panic s' => s = s'
   | _, _ => False
+
+section
+variable {α β : Type}
+
+theorem ResRel.unwrap {R : α → α → Prop} {x y : Res α} (s : String) (h : ResRel R x y) :
+    ResRel R (x.unwrap s) (y.unwrap s) := by
+  cases x <;> cases y <;> simp_all [ResRel, Res.unwrap]
+
+theorem ResRel.bind {R : α → α → Prop} {S : β → β → Prop} {x y : Res α} {k₁ k₂ : α → Res β}
+    (h : ResRel R x y) (hk : ∀ a b, R a b → ResRel S (k₁ a) (k₂ b)) :
+    ResRel S (x >>= k₁) (y >>= k₂) := by
+  cases x <;> cases y <;> simp_all [ResRel]
+
+theorem ResRel.bind_same {S : β → β → Prop} (x : Res α) {k₁ k₂ : α → Res β}
+    (hk : ∀ a, x = .ok a → ResRel S (k₁ a) (k₂ a)) : ResRel S (x >>= k₁) (x >>= k₂) := by
+  cases x <;> simp_all [ResRel]
+
+theorem ResRel.ok_iff {R : α → α → Prop} (a b : α) : ResRel R (.ok a) (.ok b) ↔ R a b := Iff.rfl
+
+theorem ResRel.mono {α : Type} {R S : α → α → Prop} {x y : Res α} (h : ∀ a b, R a b → S a b)
+    (hxy : ResRel R x y) : ResRel S x y := by
+  cases x <;> cases y <;> simp_all [ResRel]
+
+theorem ResRel.refl_of {α : Type} {R : α → α → Prop} (x : Res α) (h : ∀ a, x = .ok a → R a a) :
+    ResRel R x x := by
+  cases x <;> simp_all [ResRel]
+
+theorem Res.unwrap_eq_ok {x : Res α} {s : String} {a : α} (h : x.unwrap s = .ok a) : x = .ok a := by
+  cases x <;> simp_all [Res.unwrap]
+end
+
+section
+open Relation
+variable {O A : Type}
+
+/-! ### block sum of two maps -/
+
+/-- `π` on `[0,n)`, `π'` (shifted to start at `n'`) from `n` on -/
+def sumMap (n n' : Nat) (π π' : Nat → Nat) (i : Nat) : Nat :=
+  if i < n then π i else n' + π' (i - n)
+
+theorem sumMap_left {n n' : Nat} {π π' : Nat → Nat} {i : Nat} (h : i < n) :
+    sumMap n n' π π' i = π i := by simp [sumMap, h]
+
+theorem sumMap_right (n n' : Nat) (π π' : Nat → Nat) (v : Nat) :
+    sumMap n n' π π' (n + v) = n' + π' v := by
+  unfold sumMap
+  rw [if_neg (by omega), Nat.add_sub_cancel_left]
+
+theorem BijOn.sum {n m n' m' : Nat} {π π' : Nat → Nat} (h : BijOn n n' π) (h' : BijOn m m' π') :
+    BijOn (n + m) (n' + m') (sumMap n n' π π') := by
+  refine ⟨?_, ?_, ?_⟩
+  · intro i hi
+    by_cases hl : i < n
+    · rw [sumMap_left hl]; have := h.1 i hl; omega
+    · have := h'.1 (i - n) (by omega)
+      simp only [sumMap, hl, if_false]; omega
+  · intro i j hi hj hij
+    by_cases hl : i < n <;> by_cases hr : j < n
+    · rw [sumMap_left hl, sumMap_left hr] at hij
+      exact h.2.1 i j hl hr hij
+    · have := h.1 i hl
+      simp only [sumMap, hl, hr, if_true, if_false] at hij; omega
+    · have := h.1 j hr
+      simp only [sumMap, hl, hr, if_true, if_false] at hij; omega
+    · simp only [sumMap, hl, hr, if_false] at hij
+      have := h'.2.1 (i - n) (j - n) (by omega) (by omega) (by omega)
+      omega
+  · intro k hk
+    by_cases hl : k < n'
+    · obtain ⟨i, hi, rfl⟩ := h.2.2 k hl
+      exact ⟨i, by omega, sumMap_left hi⟩
+    · obtain ⟨i, hi, hik⟩ := h'.2.2 (k - n') (by omega)
+      exact ⟨n + i, by omega, by rw [sumMap_right, hik]; omega⟩
+
+theorem eqvGen_map {α β : Type} {r : α → α → Prop} {s : β → β → Prop} (f : α → β)
+    (h : ∀ a b, r a b → s (f a) (f b)) {a b : α} (hab : EqvGen r a b) : EqvGen s (f a) (f b) := by
+  induction hab with
+  | rel a b hr => exact EqvGen.rel _ _ (h a b hr)
+  | refl a => exact EqvGen.refl _
+  | symm a b _ ih => exact EqvGen.symm _ _ ih
+  | trans a b c _ _ ih1 ih2 => exact EqvGen.trans _ _ _ ih1 ih2
+
+/-! ### gluing is a congruence for `≅` -/
+
+/-- gluings of isomorphic well-formed operands are isomorphic -/
+theorem isGluing_congr {F G F' G' R R' : PDiag O A} (hF : F.wf = true) (hG : G.wf = true)
+    (iF : F ≅ F') (iG : G ≅ G') (h : IsGluing F G R) (h' : IsGluing F' G' R') : R ≅ R' := by
+  obtain ⟨π, ρ, bπ, bρ, nπ, eπ, insπ, outsπ⟩ := iF
+  obtain ⟨π', ρ', bπ', bρ', nπ', eπ', insπ', outsπ'⟩ := iG
+  obtain ⟨f1, f2, f3⟩ := (PDiag.wf_iff F).1 hF
+  obtain ⟨g1, g2, g3⟩ := (PDiag.wf_iff G).1 hG
+  obtain ⟨q1, hq1, k1⟩ := (isQuot_iff _ _ _).1 h
+  obtain ⟨q2, hq2, k2⟩ := (isQuot_iff _ _ _).1 h'
+  have hn1 : (gluePre F G).n = F.n + G.n := gluePre_n F G
+  have hn2 : (gluePre F' G').n = F'.n + G'.n := gluePre_n F' G'
+  let σ := sumMap F.n F'.n π π'
+  have bσ : BijOn (gluePre F G).n (gluePre F' G').n σ := by
+    rw [hn1, hn2]; exact bπ.sum bπ'
+  have hσl : ∀ i, i < F.n → σ i = π i := fun i hi => sumMap_left hi
+  have hσr : ∀ v, σ (F.n + v) = F'.n + π' v := fun v => sumMap_right _ _ _ _ v
+  have bρ'' : BijOn (gluePre F G).edges.length (gluePre F' G').edges.length
+      (sumMap F.edges.length F'.edges.length ρ ρ') := by
+    have e1 : (gluePre F G).edges.length = F.edges.length + G.edges.length := by simp [gluePre]
+    have e2 : (gluePre F' G').edges.length = F'.edges.length + G'.edges.length := by simp [gluePre]
+    rw [e1, e2]; exact bρ.sum bρ'
+  -- the relation is transported forward
+  have fwd : ∀ a b, (a < (gluePre F G).n ∧ b < (gluePre F G).n ∧ glueRel F G a b) →
+      (σ a < (gluePre F' G').n ∧ σ b < (gluePre F' G').n ∧ glueRel F' G' (σ a) (σ b)) := by
+    rintro a b ⟨ha, hb, k, hk1, hk2⟩
+    refine ⟨bσ.1 a ha, bσ.1 b hb, k, ?_, ?_⟩
+    · have hal : a < F.n := f2 a (List.mem_of_getElem? hk1)
+      rw [outsπ, List.getElem?_map, hk1, hσl a hal]; rfl
+    · cases hgk : G.ins[k]? with
+      | none => rw [hgk] at hk2; cases hk2
+      | some c =>
+        rw [hgk] at hk2
+        simp only [Option.map_some, Option.some.injEq] at hk2
+        subst hk2
+        rw [insπ', List.getElem?_map, hgk, hσr]; rfl
+  -- … and backward along the inverse of `σ`
+  let τ := invOn (gluePre F G).n σ
+  have bwd : ∀ x y, (x < (gluePre F' G').n ∧ y < (gluePre F' G').n ∧ glueRel F' G' x y) →
+      (τ x < (gluePre F G).n ∧ τ y < (gluePre F G).n ∧ glueRel F G (τ x) (τ y)) := by
+    rintro x y ⟨hx, hy, k, hk1, hk2⟩
+    rw [outsπ, List.getElem?_map] at hk1
+    rw [insπ', List.getElem?_map] at hk2
+    cases hfk : F.outs[k]? with
+    | none => rw [hfk] at hk1; cases hk1
+    | some a =>
+      cases hgk : G.ins[k]? with
+      | none => rw [hgk] at hk2; cases hk2
+      | some c =>
+        rw [hfk] at hk1
+        rw [hgk] at hk2
+        simp only [Option.map_some, Option.some.injEq] at hk1 hk2
+        have hal : a < F.n := f2 a (List.mem_of_getElem? hfk)
+        have hcl : c < G.n := g1 c (List.mem_of_getElem? hgk)
+        have hx' : τ x = a := by
+          rw [← hk1, ← hσl a hal]
+          exact bσ.invOn_left a (by omega)
+        have hy' : τ y = F.n + c := by
+          rw [← hk2, ← hσr c]
+          exact bσ.invOn_left _ (by omega)
+        rw [hx', hy']
+        exact ⟨by omega, by omega, k, hfk, by rw [hgk]; rfl⟩
+  apply C04.iso_of_quotMaps_over_iso (gluePre_wf hF hG) bσ bρ'' ?_ ?_ ?_ ?_ hq1 hq2 ?_
+  · -- nodes
+    intro i hi
+    show (F'.nodes ++ G'.nodes)[σ i]? = (F.nodes ++ G.nodes)[i]?
+    rw [hn1] at hi
+    by_cases hl : i < F.n
+    · have := bπ.1 i hl
+      rw [hσl i hl, List.getElem?_append_left this, List.getElem?_append_left hl]
+      exact nπ i hl
+    · obtain ⟨v, rfl⟩ : ∃ v, i = F.n + v := ⟨i - F.n, by omega⟩
+      rw [hσr]
+      show (F'.nodes ++ G'.nodes)[F'.nodes.length + π' v]? = (F.nodes ++ G.nodes)[F.nodes.length + v]?
+      rw [List.getElem?_append_right (Nat.le_add_right _ _),
+        List.getElem?_append_right (Nat.le_add_right _ _)]
+      simp only [Nat.add_sub_cancel_left]
+      exact nπ' v (by omega)
+  · -- edges
+    intro e he
+    have e1 : (gluePre F G).edges.length = F.edges.length + G.edges.length := by simp [gluePre]
+    rw [e1] at he
+    show (F'.edges ++ G'.edges.map (PEdge.mapNodes (F'.n + ·)))[_]? =
+      ((F.edges ++ G.edges.map (PEdge.mapNodes (F.n + ·)))[e]?).map (PEdge.mapNodes σ)
+    by_cases hl : e < F.edges.length
+    · have := bρ.1 e hl
+      rw [sumMap_left hl, List.getElem?_append_left this, List.getElem?_append_left hl, eπ e hl,
+        List.getElem?_eq_getElem hl]
+      simp only [Option.map_some, Option.some.injEq]
+      obtain ⟨hs, ht⟩ := f3 _ (List.getElem_mem hl)
+      exact PEdge.mapNodes_congr (fun v hv => (hσl v (hs v hv)).symm)
+        (fun v hv => (hσl v (ht v hv)).symm)
+    · obtain ⟨v, rfl⟩ : ∃ v, e = F.edges.length + v := ⟨e - F.edges.length, by omega⟩
+      have hv : v < G.edges.length := by omega
+      rw [sumMap_right, List.getElem?_append_right (Nat.le_add_right _ _),
+        List.getElem?_append_right (Nat.le_add_right _ _)]
+      simp only [Nat.add_sub_cancel_left, List.getElem?_map]
+      rw [eπ' v hv, List.getElem?_eq_getElem hv]
+      simp only [Option.map_some, Option.some.injEq, PEdge.mapNodes_comp]
+      exact PEdge.mapNodes_congr (fun w _ => (hσr w).symm) (fun w _ => (hσr w).symm)
+  · -- inputs
+    show F'.ins = F.ins.map σ
+    rw [insπ]
+    exact List.map_congr_left (fun v hv => (hσl v (f1 v hv)).symm)
+  · -- outputs
+    show G'.outs.map (F'.n + ·) = (G.outs.map (F.n + ·)).map σ
+    rw [outsπ', List.map_map, List.map_map]
+    exact List.map_congr_left (fun v _ => (hσr v).symm)
+  · -- kernels
+    intro i j hi hj
+    rw [k1 i j hi hj, k2 _ _ (bσ.1 i hi) (bσ.1 j hj)]
+    constructor
+    · exact eqvGen_map σ fwd
+    · intro hE
+      have : EqvGen (fun a b => a < (gluePre F G).n ∧ b < (gluePre F G).n ∧ glueRel F G a b)
+          (τ (σ i)) (τ (σ j)) := eqvGen_map τ bwd hE
+      rw [show τ (σ i) = i from bσ.invOn_left i hi, show τ (σ j) = j from bσ.invOn_left j hj] at this
+      exact this
+
+/-- juxtaposition is a congruence for `≅` (the left operand well-formed) -/
+theorem juxt_congr {F G F' G' : PDiag O A} (hF : F.wf = true) (iF : F ≅ F') (iG : G ≅ G') :
+    PDiag.juxt F G ≅ PDiag.juxt F' G' := by
+  obtain ⟨π, ρ, bπ, bρ, nπ, eπ, insπ, outsπ⟩ := iF
+  obtain ⟨π', ρ', bπ', bρ', nπ', eπ', insπ', outsπ'⟩ := iG
+  obtain ⟨f1, f2, f3⟩ := (PDiag.wf_iff F).1 hF
+  have hn1 : (PDiag.juxt F G).n = F.n + G.n := by simp [PDiag.juxt, PDiag.n]
+  have hn2 : (PDiag.juxt F' G').n = F'.n + G'.n := by simp [PDiag.juxt, PDiag.n]
+  have e1 : (PDiag.juxt F G).edges.length = F.edges.length + G.edges.length := by simp [PDiag.juxt]
+  have e2 : (PDiag.juxt F' G').edges.length = F'.edges.length + G'.edges.length := by
+    simp [PDiag.juxt]
+  have hσl : ∀ i, i < F.n → sumMap F.n F'.n π π' i = π i := fun i hi => sumMap_left hi
+  have hσr : ∀ v, sumMap F.n F'.n π π' (F.n + v) = F'.n + π' v := fun v => sumMap_right _ _ _ _ v
+  refine ⟨sumMap F.n F'.n π π', sumMap F.edges.length F'.edges.length ρ ρ', ?_, ?_, ?_, ?_, ?_, ?_⟩
+  · rw [hn1, hn2]; exact bπ.sum bπ'
+  · rw [e1, e2]; exact bρ.sum bρ'
+  · intro i hi
+    show (F'.nodes ++ G'.nodes)[_]? = (F.nodes ++ G.nodes)[i]?
+    rw [hn1] at hi
+    by_cases hl : i < F.n
+    · have := bπ.1 i hl
+      rw [hσl i hl, List.getElem?_append_left this, List.getElem?_append_left hl]
+      exact nπ i hl
+    · obtain ⟨v, rfl⟩ : ∃ v, i = F.n + v := ⟨i - F.n, by omega⟩
+      rw [hσr]
+      show (F'.nodes ++ G'.nodes)[F'.nodes.length + π' v]? = (F.nodes ++ G.nodes)[F.nodes.length + v]?
+      rw [List.getElem?_append_right (Nat.le_add_right _ _),
+        List.getElem?_append_right (Nat.le_add_right _ _)]
+      simp only [Nat.add_sub_cancel_left]
+      exact nπ' v (by omega)
+  · intro e he
+    rw [e1] at he
+    show (F'.edges ++ G'.edges.map (PEdge.mapNodes (F'.n + ·)))[_]? =
+      ((F.edges ++ G.edges.map (PEdge.mapNodes (F.n + ·)))[e]?).map (PEdge.mapNodes _)
+    by_cases hl : e < F.edges.length
+    · have := bρ.1 e hl
+      rw [sumMap_left hl, List.getElem?_append_left this, List.getElem?_append_left hl, eπ e hl,
+        List.getElem?_eq_getElem hl]
+      simp only [Option.map_some, Option.some.injEq]
+      obtain ⟨hs, ht⟩ := f3 _ (List.getElem_mem hl)
+      exact PEdge.mapNodes_congr (fun v hv => (hσl v (hs v hv)).symm)
+        (fun v hv => (hσl v (ht v hv)).symm)
+    · obtain ⟨v, rfl⟩ : ∃ v, e = F.edges.length + v := ⟨e - F.edges.length, by omega⟩
+      have hv : v < G.edges.length := by omega
+      rw [sumMap_right, List.getElem?_append_right (Nat.le_add_right _ _),
+        List.getElem?_append_right (Nat.le_add_right _ _)]
+      simp only [Nat.add_sub_cancel_left, List.getElem?_map]
+      rw [eπ' v hv, List.getElem?_eq_getElem hv]
+      simp only [Option.map_some, Option.some.injEq, PEdge.mapNodes_comp]
+      exact PEdge.mapNodes_congr (fun w _ => (hσr w).symm) (fun w _ => (hσr w).symm)
+  · show F'.ins ++ G'.ins.map (F'.n + ·) = (F.ins ++ G.ins.map (F.n + ·)).map _
+    rw [List.map_append, insπ, insπ', List.map_map, List.map_map]
+    congr 1
+    · exact List.map_congr_left (fun v hv => (hσl v (f1 v hv)).symm)
+    · exact List.map_congr_left (fun v _ => (hσr v).symm)
+  · show F'.outs ++ G'.outs.map (F'.n + ·) = (F.outs ++ G.outs.map (F.n + ·)).map _
+    rw [List.map_append, outsπ, outsπ', List.map_map, List.map_map]
+    congr 1
+    · exact List.map_congr_left (fun v hv => (hσl v (f2 v hv)).symm)
+    · exact List.map_congr_left (fun v _ => (hσr v).symm)
+end
 
 end OH
